@@ -194,6 +194,11 @@ def frame_check(case):
             res = r.apply(op)
         except IndexError:
             return None       # malformed (shrunk) history: a handle that does not exist
+        scr = op.get('scr') if op['op'] == 'genFixed' else (case['spec']['mc_variant']['scr'] if op['op'] == 'genMC' else None)
+        if scr is not None and res[0] == 'ok' and res[2] is not None:
+            bad = ra_range_check(case['spec'], scr, res[2]['ra'])
+            if bad:
+                return ('ra-range', op['op'], k, 'step %d (%s): %s' % (k, op['op'], bad))
         for which, (a, sha0, cols0, id0) in enumerate(zip((r.w.data.exp, r.w.data.mc), r.sha0, r.cols0, r.ids0)):
             nm = 'data.exp' if which == 0 else 'data.mc'
             if id(a) != id0:
@@ -218,8 +223,10 @@ def o_frame(ctx, case):
     return None if r is None else r[3]
 
 
-def o_scramble(ctx, case):
-    """scrambling contract on a generated copy: only the documented fields change, same number of events, RA in range"""
+def o_scramble(ctx, case, defer=None):
+    """scrambling contract on a generated copy: only the documented fields change, same number of events, RA in range
+    and (uniform methods) equal to lo + (hi - lo) * u for numpy's deviates.  `defer`: collect the model comparison
+    for one driver batch instead of starting a driver here."""
     w = pf.World(case['spec'])
     scr = case['scr']
     rss = w.RSS(seed=case['seed'])
@@ -242,14 +249,73 @@ def o_scramble(ctx, case):
             return '%s: field %r is not documented to change but differs (dtype %s -> %s)' % (scr, n, b.dtype, a.dtype)
         if a.size and np.shares_memory(a, b):
             return '%s: field %r of the scrambled copy shares memory with the stored data' % (scr, n)
-    lo, hi = pf.RA_RANGE[scr]
-    ra = np.asarray(out['ra'], dtype=np.float64)
-    # closed upper bound tolerated: rounding to float32 / np.mod of a tiny negative may hit the bound itself
-    if len(ra) and (np.min(ra) < lo or np.max(ra) > hi or not np.all(np.isfinite(ra))):
-        return '%s: right ascension outside [%r, %r]: min %r max %r' % (scr, lo, hi, float(np.min(ra)), float(np.max(ra)))
+    res = ra_range_check(case['spec'], scr, out['ra'])
+    if res:
+        return res
+    if scr in ('uniform', 'uniform_range'):
+        # the implementation's own deviates: uniform(lo, hi) = lo + (hi - lo) * u  (numpy, same stream)
+        if defer is not None:
+            if len(out):
+                defer.append((case, np.array(out['ra'], copy=True)))
+        else:
+            res = ra_exact_check(ctx, case, out['ra'])
+            if res:
+                return res
     if pf.sha(w.data.exp) != pf.sha(pf.World(case['spec']).data.exp):
         return '%s: the stored experimental data changed' % scr
     return None
+
+
+def ra_range_check(spec, scr, ra_arr):
+    """right ascension inside the configured range.  The array has the dtype of the stored `ra` field; rounding to
+    that dtype is monotone, so x in [lo, hi] implies dtype(x) in [dtype(lo), dtype(hi)] — checked exactly.  The upper
+    bound is closed (uniform: float rounding of lo + (hi-lo)*u; time scrambling: np.mod of a tiny negative is 2pi)."""
+    lo, hi = pf.ra_range_of(spec, scr)
+    ra_arr = np.asarray(ra_arr)
+    dt = ra_arr.dtype.type
+    lo_d, hi_d = float(dt(lo)), float(dt(hi))
+    ra = ra_arr.astype(np.float64)
+    if len(ra) and (not np.all(np.isfinite(ra)) or np.min(ra) < min(lo, lo_d) or np.max(ra) > max(hi, hi_d)):
+        bad = ra[(ra < min(lo, lo_d)) | (ra > max(hi, hi_d)) | ~np.isfinite(ra)]
+        return '%s: %d of %d right ascensions outside the configured range [%r, %r] (dtype %s): e.g. %r; min %r max %r' % (
+            scr, len(bad), len(ra), lo, hi, ra_arr.dtype, float(bad[0]), float(np.min(ra)), float(np.max(ra)))
+    return None
+
+
+def ra_model_request(case, n):
+    """request line for Driver/C07: uniformRA lo hi <the deviates numpy draws for this seed>"""
+    from harness.core import f2b, flist
+    from skyllh.core.random import RandomStateService
+    lo, hi = pf.ra_range_of(case['spec'], case['scr'])
+    us = RandomStateService(seed=case['seed']).random.random_sample(n)
+    return 'uniformRA %s %s %s' % (f2b(lo), f2b(hi), flist(us))
+
+
+def ra_model_compare(case, ra_arr, answer):
+    """bit-exact (diagnostic) then 1e-12-relative (verdict level for values) comparison with the model"""
+    from harness.core import parse_flist
+    ra_arr = np.asarray(ra_arr)
+    want64 = np.array(parse_flist(answer), dtype=np.float64)
+    want = want64.astype(ra_arr.dtype)
+    if len(want) != len(ra_arr):
+        return 'uniform RA: %d values, model %d' % (len(ra_arr), len(want))
+    if want.tobytes() == ra_arr.tobytes():
+        return None
+    lo, hi = pf.ra_range_of(case['spec'], case['scr'])
+    tol = 1e-12 * (abs(lo) + abs(hi) + 1.0) + (1e-6 * (abs(lo) + abs(hi) + 1.0) if ra_arr.dtype == np.float32 else 0.0)
+    d = np.abs(ra_arr.astype(np.float64) - want64)
+    if np.all(d <= tol):
+        return None
+    i = int(np.argmax(d))
+    return '%s: scrambled right ascension is not lo + (hi - lo) * u for range (%r, %r): row %d is %r, model %r' % (
+        case['scr'], lo, hi, i, float(ra_arr[i]), float(want64[i]))
+
+
+def ra_exact_check(ctx, case, ra_arr):
+    if len(ra_arr) == 0:
+        return None
+    ans = ctx.driver('C07', [ra_model_request(case, len(ra_arr))])[0]
+    return ra_model_compare(case, ra_arr, ans)
 
 
 # ------------------------------------------------------------------------------------------
@@ -372,6 +438,30 @@ def o_corr(ctx, case):
     return corr_history(ctx, case)
 
 
+def ra_class(r):
+    lo, hi = r
+    if lo == hi:
+        return 'zero-width'
+    if hi - lo <= 1e-6:
+        return 'tiny'
+    if hi <= 0:
+        return 'below-0'
+    if lo >= pf.TWO_PI:
+        return 'above-2pi'
+    if lo < 0 and hi > pf.TWO_PI:
+        return 'wide'
+    if lo < 0:
+        return 'straddles-0'
+    if hi > pf.TWO_PI:
+        return 'straddles-2pi'
+    return 'inside'
+
+
+def scr_signature(case, res):
+    mode = 'ra-range' if 'outside the configured range' in res else 'ra-value' if 'is not lo +' in res else 'contract'
+    return 'C07/scramble/%s/%s' % (case['scr'], mode)
+
+
 ORACLES = {'frame': o_frame, 'scramble': o_scramble, 'corr': o_corr}
 
 
@@ -413,15 +503,25 @@ def run(ctx):
     ctx.assumptions += ['data-field functions and generators return arrays not referenced by the stored data',
                         'one MCDataSamplingBkgGenMethod instance per history (one _cache_mc)']
     # ---- scrambling contract
+    deferred = []
     for i in range(ctx.n(60, 1500)):
         spec = pf.gen_spec(rng)
-        case = {'spec': spec, 'scr': rng.choice(pf.SCRAMBLERS), 'seed': rng.randrange(10**6),
+        case = {'spec': spec, 'scr': rng.choice(pf.SCRAMBLERS + ['uniform_range', 'uniform_range']), 'seed': rng.randrange(10**6),
                 'via': rng.choice(['scrambler', 'bkg'])}
         ctx.count('scramble:' + case['scr'])
         ctx.case(key=('scr', case), desc={'oracle': 'scramble', 'case': case} if i % 199 == 0 else None)
-        res = o_scramble(ctx, case)
+        ctx.count('ra_range:' + ra_class(pf.ra_range_of(spec, case['scr'])) if case['scr'].startswith('uniform') else 'ra_range:[0,2pi)')
+        res = o_scramble(ctx, case, defer=deferred)
         if res:
-            ctx.violation('scramble', case, res, signature='C07/scramble/%s/%s' % (case['scr'], 'ra-range' if 'right ascension' in res else 'contract'))
+            ctx.violation('scramble', case, res, signature=scr_signature(case, res))
+    if deferred:
+        answers = ctx.driver('C07', [ra_model_request(c, len(ra)) for c, ra in deferred])
+        for (c, ra), ans in zip(deferred, answers):
+            ctx.count('ra_model_compared')
+            res = ra_model_compare(c, ra, ans)
+            if res:
+                # look for a failing input with the range oracle first (it already passed above: report the value relation)
+                ctx.violation('scramble', c, res, signature=scr_signature(c, res))
     # ---- byte snapshots over histories (incl. Analysis.do_trial)
     maxlen = ctx.n(4, 6)
     for i in range(ctx.n(250, 8000)):
